@@ -413,6 +413,17 @@ fn run_fault<K: Kit>(sc0: &Scenario, f: &Fault, rep: &mut Report) {
                         });
                     }
                 }
+                // an out-of-range parameter or an empty start list is reported as an error by every
+                // solve call (neither a path nor a mere timeout)
+                if matches!(f, Fault::Bias(_) | Fault::EmptyStarts) {
+                    let solves = if pk == Pk::Prm { &results[1..] } else { &results[..] };
+                    rep.count("misuse_solves_checked", solves.len() as u64);
+                    if solves.iter().any(|r| r == "Ok" || r == "Timeout") {
+                        rep.violate(format!("C08|{name}|misuse-not-reported|{class}"), format!("{class}: solve did not report the misuse as an error (results {results:?})"), || {
+                            json!({"kind": "fault", "prop": "C08", "scenario": sc.json(), "fault": format!("{f:?}"), "results": results})
+                        });
+                    }
+                }
             } else {
                 rep.count("faults_not_reached", 1);
             }
@@ -466,7 +477,7 @@ pub fn explore(prop: &'static str, tier: &'static str) -> Report {
                 faults.push(Fault::GoalFailsAt(k, kind));
             }
         }
-        for b in [-0.1, 1.5, f64::NAN, f64::INFINITY] {
+        for b in [-0.1, 1.5, f64::NAN, f64::INFINITY, f64::NEG_INFINITY, 1.0 + f64::EPSILON, -f64::MIN_POSITIVE, -5e-324, 2.0] {
             faults.push(Fault::Bias(b));
         }
         faults.push(Fault::EmptyStarts);
@@ -499,7 +510,7 @@ pub fn run(prop: &'static str, tier: &'static str) -> i32 {
         tier,
         level: "model_checking",
         rule: if prop == "C08" {
-            "every call sequence of length 1..h from new() over the menu {setup(P1), setup(P2), setup(P-invalid-start), solve (forward / reverse script)} (PRM: plus construct_roadmap, set_problem_definition x3) for 4 planners x 6 spaces, each call under catch_unwind and compared with a reference API automaton (allowed result classes, roadmap cleared by setup, answers for the latest problem); plus fault enumeration: uniform / goal sampler failing at call k for every k < 6 (2 error kinds), goal bias in {-0.1, 1.5, NaN, inf}, empty start list; states = distinct (call sequence, outcome vector); transitions = API calls executed"
+            "every call sequence of length 1..h from new() over the menu {setup(P1), setup(P2), setup(P-invalid-start), solve (forward / reverse script)} (PRM: plus construct_roadmap, set_problem_definition x3) for 4 planners x 6 spaces, each call under catch_unwind and compared with a reference API automaton (allowed result classes, roadmap cleared by setup, answers for the latest problem); plus fault enumeration: uniform / goal sampler failing at call k for every k < 6 (2 error kinds), goal bias in {-0.1, 1.5, NaN, +-inf, 1+eps, -MIN_POSITIVE, -5e-324, 2} (each solve must report an error), empty start list; states = distinct (call sequence, outcome vector); transitions = API calls executed"
         } else {
             "the call-sequence exploration of C08 judged by C02's oracle: whenever a solve returns a path it starts bit-for-bit at the start of the most recently installed problem and ends in that problem's goal"
         },
